@@ -52,9 +52,13 @@ def _float_text(x):
     return s
 
 
+PATTERN_WORDS = {"AND", "OR", "NOT", "FOLLOWEDBY", "LIKE", "MATCHES", "ISSUPERSET", "ISSUBSET", "EXISTS", "LAST", "IN", "START", "STOP", "SECONDS", "WITHIN",
+                 "REPEATS", "TIMES", "true", "false"}
+
+
 def needs_quote(name):
     import re
-    return not re.match(r"\A[a-zA-Z_][a-zA-Z0-9_]*\Z", name)
+    return not re.match(r"\A[a-zA-Z_][a-zA-Z0-9_]*\Z", name) or name in PATTERN_WORDS
 
 
 def path_text(p):
@@ -317,7 +321,7 @@ OBJ_TYPES = ["file", "ipv4-addr", "network-traffic", "process", "x-custom", "dom
 PROPS = ["name", "value", "size", "pid", "dst_port", "src_port", "protocols", "is_hidden", "created", "extensions", "x_prop", "body_multipart",
          "command_line", "subject", "account_login", "mime_type"]
 KEYS = ["windows-pebinary-ext", "sections", "entropy", "a b", "it's", "x-y", "body", "n1", "back\\slash",
-        "größe", "ключ", "名前", "m²", "sınıf", "*", "0", "1x", "'tis", "'q'", "q'"]      # word characters outside ASCII, and steps that look like indices, must stay quoted
+        "größe", "ключ", "名前", "m²", "sınıf", "*", "0", "1x", "'tis", "'q'", "q'", "IN", "AND", "true", "START", "EXISTS", "NOT"]      # word characters outside ASCII, and steps that look like indices, must stay quoted
 STRS = ["foo", "foo.exe", "198.51.100.1", "it's", "back\\slash", "a%b_c", "^\\d+$", "", " ", "üñí", "\U0001f600", "tab\there", "-", "x' OR 'y", "1", "true"]
 
 
